@@ -543,7 +543,18 @@ type verifSnap struct {
 
 // verifSnaps holds a (shallow) copy of every package-level variable as package initialisation left it: no constant of
 // the implementation is mirrored, and a variable that a change adds or retypes is covered without touching this file.
-var verifSnaps = func() []verifSnap {
+var verifSnaps []verifSnap
+
+// VerifInit takes the snapshot. It is called by the harness at process start, i.e. after ALL initialisation of the
+// package (variable initialisers and init functions: tables filled by an init() are part of the initial state) and
+// before the library is used.
+func VerifInit() {
+	if verifSnaps == nil {
+		verifSnaps = verifSnapshot()
+	}
+}
+
+func verifSnapshot() []verifSnap {
 	out := make([]verifSnap, len(verifVars))
 	for i, e := range verifVars {
 		v := reflect.ValueOf(e.p).Elem()
@@ -552,12 +563,13 @@ var verifSnaps = func() []verifSnap {
 		out[i] = verifSnap{v: c, emptyMap: v.Kind() == reflect.Map && !v.IsNil() && v.Len() == 0}
 	}
 	return out
-}()
+}
 
 // VerifResetGlobals puts the process-wide state of the package back to what a fresh process has: new pools, every
 // package-level variable back to its initial value (a map that started empty becomes a new empty map; what a pointer or
 // a non-empty map refers to cannot be rolled back).
 func VerifResetGlobals() {
+	VerifInit()
 	resetPools()
 	for i, e := range verifVars {
 		v := reflect.ValueOf(e.p).Elem()
